@@ -17,7 +17,10 @@ ASSUMPTIONS = ['CPython sorted() is stable (modelled by a stable insertion sort)
                'cap >= 0 (a negative cap would be a Python negative slice; excluded by the argument parser default and by the property)']
 
 
-def key_of(i):
+def key_of(i, oriented=False):
+    if oriented:                                # candidates 2k and 2k+1 are the two orientations of one feature pair
+        a, b = f'f{i // 2}', f'h{(i // 2) % 5}'
+        return (a, b) if i % 2 == 0 else (b, a)
     return (f'f{i}', f'g{i % 7}')
 
 
@@ -53,7 +56,7 @@ def gen_history(rng, thorough):
             l = [rng.randrange(100) for _ in range(m)] if rng.random() < 0.3 else rng.sample(range(100), m)
         cap = fixed_cap if fixed_cap is not None else rng.choice([0, 1, len(l) // 2, max(0, len(l) - 1), len(l), len(l) + 3, rng.randint(0, len(l) + 3)])
         calls.append((l, cap))
-    return {'kind': kind, 'base': sorted(base), 'calls': calls, 'container': container}
+    return {'kind': kind, 'base': sorted(base), 'calls': calls, 'container': container, 'oriented': rng.random() < 0.3}
 
 
 def run_impl(case):
@@ -65,7 +68,7 @@ def run_impl(case):
     for l, cap in case['calls']:
         combos = []
         for i in l:
-            k = key_of(i)
+            k = key_of(i, case.get('oriented', False))
             rev[k] = i
             combos.append(k)
         if case.get('container') == 'same-object':
@@ -90,10 +93,19 @@ def run_impl(case):
             steps.append({'compact': True, 'ret': [rev[k] for k in ret], 'minmax': [lo, hi], 'witness': [over, under],
                           'accounting_ok': {k: v for k, v in cnt.items() if v} == acc})
             continue
-        pre = sorted((rev[k], v) for k, v in cr.GLOBAL_PRIOR_COMB_COUNTS.items())
+        foreign = {}
+
+        def ident(k):
+            # a key the caller never passed (a re-oriented or otherwise rewritten candidate) gets an id outside the candidates':
+            # it then fails the membership / accounting clauses instead of crashing the harness
+            if k in rev:
+                return rev[k]
+            return foreign.setdefault(repr(k), 10 ** 6 + len(foreign))
+        pre = sorted((ident(k), v) for k, v in cr.GLOBAL_PRIOR_COMB_COUNTS.items())
         ret = cr.prior_combinations_sample(combos, args)
-        post = sorted((rev[k], v) for k, v in cr.GLOBAL_PRIOR_COMB_COUNTS.items())
-        steps.append({'pre': [list(p) for p in pre], 'ret': [rev[k] for k in ret], 'post': [list(p) for p in post]})
+        post = sorted((ident(k), v) for k, v in cr.GLOBAL_PRIOR_COMB_COUNTS.items())
+        steps.append({'pre': [list(p) for p in pre], 'ret': [ident(k) for k in ret], 'post': [list(p) for p in post],
+                      'foreign': sorted(foreign)})
     cr.GLOBAL_PRIOR_COMB_COUNTS.clear()
     case.pop('_acc', None)
     return steps
@@ -138,6 +150,7 @@ def evaluate(ctx: Ctx, cases, oracle_only=False):
             ctx.nontrivial.add(hash(repr(c['calls'])))
         ctx.count('kind:' + c['kind'])
         ctx.count('candidate-container:' + c.get('container', 'fresh'))
+        ctx.count('candidates:' + ('both-orientations-of-feature-pairs' if c.get('oriented') else 'one-orientation'))
         ctx.count('calls:%d' % (ncalls if ncalls < 10 else (ncalls // 10) * 10))
         for l, cap in c['calls']:
             ctx.count('cap<n' if cap < len(l) else 'cap>=n')
@@ -201,7 +214,8 @@ def evaluate(ctx: Ctx, cases, oracle_only=False):
                     break
             post = {k: v for k, v in s['post'] if v != 0}
             if post != acc:
-                ctx.oracle_fail('accounting', f'after call #{i} reported counts {s["post"]} != selections so far {sorted(acc.items())}', short)
+                ctx.oracle_fail('accounting', f'after call #{i} reported counts {s["post"]} != selections so far {sorted(acc.items())}' +
+                                (f' (ids from 1000000 on are keys of the counter that were never passed as candidates: {s["foreign"]})' if s.get('foreign') else ''), short)
                 break
         if c['kind'] != 'stable-huge':
             ctx.sample({'kind': c['kind'], 'calls': c['calls'][:3], 'impl_first_returns': [s['ret'] for s in st[:3]]})
